@@ -7,7 +7,13 @@
 //     assigned to d.hostCheckers in filtering.New (function value of `check:`
 //     and the string of `name:`), in source order;
 //   - the request stages: the elements of the []modProcessFunc composite
-//     literal `mods` in (*Server).handleDNSRequest, in source order.
+//     literal `mods` in (*Server).handleDNSRequest, in source order;
+//   - the guard tables: the early-exit structure (if arms ending in return /
+//     break / continue, switch clauses, remaining returns) of the functions
+//     the pipeline model mirrors, see "Guard tables" below.
+//
+// A listed function that is missing, declared several times or has no body is
+// unresolved as well.
 //
 // Anything that is not of the expected syntactic shape (no or several such
 // literals, an element that is not a plain function / method value, a name
@@ -20,6 +26,7 @@ import (
 	"fmt"
 	"go/ast"
 	"go/parser"
+	"go/printer"
 	"go/token"
 	"os"
 	"path/filepath"
@@ -116,6 +123,439 @@ func literalsIn(files []*ast.File, recv, fn, elt string) (lits []*ast.CompositeL
 	return lits
 }
 
+// ---------------------------------------------------------------------------
+// Guard tables
+//
+// For a fixed list of functions the early-exit structure of the body is
+// recorded as a list of entries (kind, path, text, term, setsRes, clauses):
+//
+//   kind "if":     one arm of a top-level if / else-if chain in which at least
+//                  one arm ends in return / break / continue.  text is the arm
+//                  label ("if [INIT; ]COND", "else if …", "else"), term the
+//                  last statement of the arm ("return X, Y", "break",
+//                  "continue" or "" when the arm falls through), setsRes
+//                  whether the arm assigns to something whose last selector
+//                  is .Res.
+//   kind "switch": a switch / type switch; text is "switch [INIT; ]TAG", and
+//                  clauses lists, per case clause, the case expressions in
+//                  order (empty = default), the clause's last statement as
+//                  above and its setsRes.
+//   kind "return": a return statement that is not the last statement of a
+//                  recorded arm or clause (e.g. the function's final return).
+//   kind "setres": an assignment to ….Res outside every if arm and switch
+//                  clause (text is the assignment).
+//
+// path names the enclosing statements ("for range X / if COND / case A, B"),
+// joined by " / ".  Loops are entered without counting as nesting; if arms
+// and switch clauses are entered one level deep (a guard inside a guard).
+// Expressions are printed by a small printer of our own, so that line breaks
+// and spacing of the source do not matter.
+
+type clause struct {
+	Cases   []string `json:"cases"`
+	Term    string   `json:"term"`
+	SetsRes bool     `json:"sets_res"`
+}
+
+type guard struct {
+	Kind    string   `json:"kind"`
+	Path    string   `json:"path"`
+	Text    string   `json:"text"`
+	Term    string   `json:"term"`
+	SetsRes bool     `json:"sets_res"`
+	Clauses []clause `json:"clauses"`
+}
+
+type funcGuards struct {
+	Name   string  `json:"name"`
+	Guards []guard `json:"guards"`
+}
+
+var guardFset *token.FileSet
+
+// fallbackText prints a node with go/printer and collapses white space.
+func fallbackText(n ast.Node) string {
+	var b strings.Builder
+	if err := printer.Fprint(&b, guardFset, n); err != nil {
+		unresolved = append(unresolved, fmt.Sprintf("guards: cannot print %T", n))
+		return "?"
+	}
+	return strings.Join(strings.Fields(b.String()), " ")
+}
+
+func exprList(es []ast.Expr) string {
+	ss := make([]string, len(es))
+	for i, e := range es {
+		ss[i] = exprText(e)
+	}
+	return strings.Join(ss, ", ")
+}
+
+// exprText is the normalised text of an expression.
+func exprText(e ast.Expr) string {
+	switch v := e.(type) {
+	case nil:
+		return ""
+	case *ast.Ident:
+		return v.Name
+	case *ast.BasicLit:
+		return v.Value
+	case *ast.SelectorExpr:
+		return exprText(v.X) + "." + v.Sel.Name
+	case *ast.CallExpr:
+		s := exprText(v.Fun) + "(" + exprList(v.Args)
+		if v.Ellipsis.IsValid() {
+			s += "..."
+		}
+		return s + ")"
+	case *ast.BinaryExpr:
+		return exprText(v.X) + " " + v.Op.String() + " " + exprText(v.Y)
+	case *ast.UnaryExpr:
+		return v.Op.String() + exprText(v.X)
+	case *ast.ParenExpr:
+		return "(" + exprText(v.X) + ")"
+	case *ast.StarExpr:
+		return "*" + exprText(v.X)
+	case *ast.CompositeLit:
+		return exprText(v.Type) + "{" + exprList(v.Elts) + "}"
+	case *ast.KeyValueExpr:
+		return exprText(v.Key) + ": " + exprText(v.Value)
+	case *ast.IndexExpr:
+		return exprText(v.X) + "[" + exprText(v.Index) + "]"
+	case *ast.IndexListExpr:
+		return exprText(v.X) + "[" + exprList(v.Indices) + "]"
+	case *ast.SliceExpr:
+		s := exprText(v.X) + "[" + exprText(v.Low) + ":" + exprText(v.High)
+		if v.Slice3 {
+			s += ":" + exprText(v.Max)
+		}
+		return s + "]"
+	case *ast.TypeAssertExpr:
+		if v.Type == nil {
+			return exprText(v.X) + ".(type)"
+		}
+		return exprText(v.X) + ".(" + exprText(v.Type) + ")"
+	case *ast.ArrayType:
+		return "[" + exprText(v.Len) + "]" + exprText(v.Elt)
+	case *ast.MapType:
+		return "map[" + exprText(v.Key) + "]" + exprText(v.Value)
+	case *ast.Ellipsis:
+		return "..." + exprText(v.Elt)
+	}
+	return fallbackText(e)
+}
+
+// simpleStmtText prints the init statement of an if / switch.
+func simpleStmtText(s ast.Stmt) string {
+	switch v := s.(type) {
+	case nil:
+		return ""
+	case *ast.AssignStmt:
+		return exprList(v.Lhs) + " " + v.Tok.String() + " " + exprList(v.Rhs)
+	case *ast.ExprStmt:
+		return exprText(v.X)
+	case *ast.IncDecStmt:
+		return exprText(v.X) + v.Tok.String()
+	}
+	return fallbackText(s)
+}
+
+func withInit(kw string, init ast.Stmt, rest string) string {
+	s := kw
+	if init != nil {
+		s += " " + simpleStmtText(init) + ";"
+	}
+	if rest != "" {
+		s += " " + rest
+	}
+	return s
+}
+
+// termOf describes the last statement of a statement list when it leaves the
+// list: "return …", "break", "continue", "goto L", "fallthrough"; "" otherwise.
+func termOf(list []ast.Stmt) string {
+	if len(list) == 0 {
+		return ""
+	}
+	switch v := list[len(list)-1].(type) {
+	case *ast.ReturnStmt:
+		if len(v.Results) == 0 {
+			return "return"
+		}
+		return "return " + exprList(v.Results)
+	case *ast.BranchStmt:
+		if v.Label != nil {
+			return v.Tok.String() + " " + v.Label.Name
+		}
+		return v.Tok.String()
+	}
+	return ""
+}
+
+// setsRes reports whether the statements assign to x.….Res somewhere (function
+// literals included).
+func setsRes(list []ast.Stmt) (found bool) {
+	for _, s := range list {
+		ast.Inspect(s, func(n ast.Node) bool {
+			if as, ok := n.(*ast.AssignStmt); ok {
+				for _, l := range as.Lhs {
+					if se, isSel := l.(*ast.SelectorExpr); isSel && se.Sel.Name == "Res" {
+						found = true
+					}
+				}
+			}
+			return !found
+		})
+	}
+	return found
+}
+
+const maxGuardNesting = 2
+
+type guardWalker struct {
+	out []guard
+}
+
+func joinPath(path, label string) string {
+	if path == "" {
+		return label
+	}
+	return path + " / " + label
+}
+
+// walk records the guards of a statement list.  level counts the if arms and
+// switch clauses around the list; last tells whether a trailing return of the
+// list is already recorded as the term of the enclosing arm / clause.
+func (w *guardWalker) walk(list []ast.Stmt, path string, level int, termRecorded bool) {
+	for i, st := range list {
+		for {
+			ls, ok := st.(*ast.LabeledStmt)
+			if !ok {
+				break
+			}
+			st = ls.Stmt
+		}
+		switch v := st.(type) {
+		case *ast.ReturnStmt:
+			if termRecorded && i == len(list)-1 {
+				continue
+			}
+			w.out = append(w.out, guard{Kind: "return", Path: path, Term: termOf([]ast.Stmt{v}), Clauses: []clause{}})
+		case *ast.AssignStmt:
+			// an unconditional (level 0) assignment of the response
+			if level == 0 && setsRes([]ast.Stmt{v}) {
+				w.out = append(w.out, guard{Kind: "setres", Path: path, Text: simpleStmtText(v), SetsRes: true, Clauses: []clause{}})
+			}
+		case *ast.IfStmt:
+			w.walkIf(v, path, level)
+		case *ast.SwitchStmt:
+			w.walkSwitch(withInit("switch", v.Init, exprText(v.Tag)), v.Body, path, level)
+		case *ast.TypeSwitchStmt:
+			w.walkSwitch(withInit("switch", v.Init, simpleStmtText(v.Assign)), v.Body, path, level)
+		case *ast.RangeStmt:
+			w.walk(v.Body.List, joinPath(path, "for range "+exprText(v.X)), level, false)
+		case *ast.ForStmt:
+			w.walk(v.Body.List, joinPath(path, withInit("for", nil, exprText(v.Cond))), level, false)
+		case *ast.BlockStmt:
+			w.walk(v.List, path, level, false)
+		}
+	}
+}
+
+func (w *guardWalker) walkIf(first *ast.IfStmt, path string, level int) {
+	if level >= maxGuardNesting {
+		return
+	}
+	type arm struct {
+		label string
+		body  []ast.Stmt
+	}
+	var arms []arm
+	kw := "if"
+	for cur := first; cur != nil; {
+		arms = append(arms, arm{withInit(kw, cur.Init, exprText(cur.Cond)), cur.Body.List})
+		switch e := cur.Else.(type) {
+		case *ast.IfStmt:
+			cur, kw = e, "else if"
+		case *ast.BlockStmt:
+			arms = append(arms, arm{"else", e.List})
+			cur = nil
+		default:
+			cur = nil
+		}
+	}
+	leaves := false
+	for _, a := range arms {
+		if termOf(a.body) != "" {
+			leaves = true
+		}
+	}
+	for _, a := range arms {
+		if leaves {
+			w.out = append(w.out, guard{Kind: "if", Path: path, Text: a.label, Term: termOf(a.body),
+				SetsRes: setsRes(a.body), Clauses: []clause{}})
+		}
+		w.walk(a.body, joinPath(path, a.label), level+1, leaves)
+	}
+}
+
+func (w *guardWalker) walkSwitch(label string, body *ast.BlockStmt, path string, level int) {
+	if level >= maxGuardNesting {
+		return
+	}
+	g := guard{Kind: "switch", Path: path, Text: label, Clauses: []clause{}}
+	type sub struct {
+		label string
+		body  []ast.Stmt
+	}
+	var subs []sub
+	for _, s := range body.List {
+		cc, ok := s.(*ast.CaseClause)
+		if !ok {
+			continue
+		}
+		cases := []string{}
+		for _, e := range cc.List {
+			cases = append(cases, exprText(e))
+		}
+		g.Clauses = append(g.Clauses, clause{Cases: cases, Term: termOf(cc.Body), SetsRes: setsRes(cc.Body)})
+		l := "default"
+		if len(cases) > 0 {
+			l = "case " + strings.Join(cases, ", ")
+		}
+		subs = append(subs, sub{l, cc.Body})
+	}
+	w.out = append(w.out, g)
+	for _, s := range subs {
+		w.walk(s.body, joinPath(joinPath(path, label), s.label), level+1, true)
+	}
+}
+
+// funcDecls finds the declarations of recv.fn (recv == "" for a plain function).
+func funcDecls(files []*ast.File, recv, fn string) (fds []*ast.FuncDecl) {
+	for _, f := range files {
+		for _, d := range f.Decls {
+			fd, ok := d.(*ast.FuncDecl)
+			if !ok || fd.Name.Name != fn {
+				continue
+			}
+			if (recv == "") != (fd.Recv == nil) {
+				continue
+			}
+			if recv != "" {
+				if len(fd.Recv.List) != 1 {
+					continue
+				}
+				t := fd.Recv.List[0].Type
+				if st, isStar := t.(*ast.StarExpr); isStar {
+					t = st.X
+				}
+				if id, isID := t.(*ast.Ident); !isID || id.Name != recv {
+					continue
+				}
+			}
+			fds = append(fds, fd)
+		}
+	}
+	return fds
+}
+
+type guardTarget struct{ recv, fn string }
+
+var dnsforwardGuardTargets = []guardTarget{
+	{"Server", "handleDNSRequest"},
+	{"Server", "processInitial"},
+	{"Server", "processDDRQuery"},
+	{"Server", "processDHCPHosts"},
+	{"Server", "processDHCPAddrs"},
+	{"Server", "processFilteringBeforeRequest"},
+	{"Server", "processUpstream"},
+	{"Server", "processFilteringAfterResponse"},
+	{"Server", "filterAfterResponse"},
+	{"Server", "filterDNSRequest"},
+	{"", "isRewrittenCNAME"},
+	{"Server", "filterDNSResponse"},
+	{"Server", "genDNSFilterMessage"},
+	{"Server", "genBlockedHost"},
+}
+
+var filteringGuardTargets = []guardTarget{
+	{"DNSFilter", "CheckHostRules"},
+	{"DNSFilter", "CheckHost"},
+	{"DNSFilter", "matchHost"},
+	{"DNSFilter", "processDNSResultRewrites"},
+	{"DNSFilter", "matchSysHosts"},
+	{"", "matchBlockedServicesRules"},
+	{"DNSFilter", "checkSafeSearch"},
+}
+
+func extractGuards(pkg string, fset *token.FileSet, files []*ast.File, targets []guardTarget) (res []funcGuards) {
+	guardFset = fset
+	for _, t := range targets {
+		name := pkg + "." + t.fn
+		if t.recv != "" {
+			name = pkg + "." + t.recv + "." + t.fn
+		}
+		fg := funcGuards{Name: name, Guards: []guard{}}
+		fds := funcDecls(files, t.recv, t.fn)
+		switch {
+		case len(fds) != 1:
+			unresolved = append(unresolved, fmt.Sprintf("guards: %s: %d declarations, want 1", name, len(fds)))
+		case fds[0].Body == nil:
+			unresolved = append(unresolved, fmt.Sprintf("guards: %s: no body", name))
+		default:
+			w := &guardWalker{}
+			w.walk(fds[0].Body.List, "", 0, false)
+			if w.out != nil {
+				fg.Guards = w.out
+			}
+		}
+		res = append(res, fg)
+	}
+	return res
+}
+
+func coqString(s string) string {
+	return "\"" + strings.ReplaceAll(s, "\"", "\"\"") + "\""
+}
+
+func coqBool(b bool) string {
+	if b {
+		return "true"
+	}
+	return "false"
+}
+
+const coqGuardType = "(string * string * string * string * bool * list (list string * string * bool))"
+
+func coqGuards(fgs []funcGuards) string {
+	var b strings.Builder
+	b.WriteString("[")
+	for i, fg := range fgs {
+		if i > 0 {
+			b.WriteString(";")
+		}
+		b.WriteString("\n  (" + coqString(fg.Name) + ",\n   [")
+		for j, g := range fg.Guards {
+			if j > 0 {
+				b.WriteString(";")
+			}
+			b.WriteString("\n    (" + coqString(g.Kind) + ", " + coqString(g.Path) + ",\n     " + coqString(g.Text) + ",\n     " +
+				coqString(g.Term) + ", " + coqBool(g.SetsRes) + ",\n     [")
+			for k, c := range g.Clauses {
+				if k > 0 {
+					b.WriteString(";")
+				}
+				b.WriteString("\n      (" + coqList(c.Cases) + ", " + coqString(c.Term) + ", " + coqBool(c.SetsRes) + ")")
+			}
+			b.WriteString("])")
+		}
+		b.WriteString("])")
+	}
+	b.WriteString("]")
+	return b.String()
+}
+
 func coqList(ss []string) string {
 	if len(ss) == 0 {
 		return "[]"
@@ -142,7 +582,7 @@ func main() {
 	}
 
 	// --- host checkers
-	_, ffiles := parseDir(filepath.Join(repo, "internal", "filtering"), overlay)
+	ffset, ffiles := parseDir(filepath.Join(repo, "internal", "filtering"), overlay)
 	var checkers, checkerNames []string
 	lits := literalsIn(ffiles, "", "New", "hostChecker")
 	if len(lits) != 1 {
@@ -186,7 +626,7 @@ func main() {
 	}
 
 	// --- request stages
-	_, dfiles := parseDir(filepath.Join(repo, "internal", "dnsforward"), overlay)
+	dfset, dfiles := parseDir(filepath.Join(repo, "internal", "dnsforward"), overlay)
 	var stages []string
 	slits := literalsIn(dfiles, "Server", "handleDNSRequest", "modProcessFunc")
 	if len(slits) != 1 {
@@ -202,6 +642,10 @@ func main() {
 		}
 	}
 
+	// --- guard tables
+	guards := extractGuards("dnsforward", dfset, dfiles, dnsforwardGuardTargets)
+	guards = append(guards, extractGuards("filtering", ffset, ffiles, filteringGuardTargets)...)
+
 	var b strings.Builder
 	b.WriteString("(* Generated by tools/ordertables from internal/filtering (filtering.New) and\n")
 	b.WriteString("   internal/dnsforward (handleDNSRequest); do not edit. *)\n")
@@ -209,6 +653,10 @@ func main() {
 	b.WriteString("Definition host_checkers : list string :=\n  " + coqList(checkers) + ".\n\n")
 	b.WriteString("Definition host_checker_names : list string :=\n  " + coqList(checkerNames) + ".\n\n")
 	b.WriteString("Definition stages : list string :=\n  " + coqList(stages) + ".\n\n")
+	b.WriteString("(* Early-exit structure of the pipeline's functions: per function the entries\n")
+	b.WriteString("   (kind, path, text, term, sets .Res, switch clauses (cases, term, sets .Res));\n")
+	b.WriteString("   see tools/ordertables/main.go. *)\n")
+	b.WriteString("Definition guards : list (string * list " + coqGuardType + ") :=\n  " + coqGuards(guards) + ".\n\n")
 	b.WriteString("Definition unresolved : list string :=\n  " + coqList(unresolved) + ".\n")
 
 	gen := filepath.Join(verif, "coq", "Gen")
@@ -226,6 +674,7 @@ func main() {
 	write("PipelineTables.v", []byte(b.String()))
 	js, _ := json.MarshalIndent(map[string]any{
 		"host_checkers": checkers, "host_checker_names": checkerNames, "stages": stages, "unresolved": unresolved,
+		"guards": guards,
 	}, "", " ")
 	write("pipeline_tables.json", js)
 }
